@@ -4,9 +4,10 @@ import pfam, canon
 
 PAYLOADS = ["pl", "a==b", "==", "SELECT", "CURRENT DATE", "CURRENT TIMESTAMP x", "--", "-- c", "/*", "/* x", "#", "# c", "(", ")]", "([", ";", "a;b", "a\tb", "a\r\nb", "a　b",
             "é", "日本語", "😀", "a b", " ", "FROM t WHERE", "1 + 2", ",", "NULL", "!=", "<=>", "a.b", "%", "x_1", "CURRENT_DATE", "UNION ALL", "\\n", "it s", "{#}", "#{x}",
-            "a'b", 'a"b', "a`b", "*/", "\n"]
+            "a'b", 'a"b', "a`b", "*/", "\n",
+            "a\\tb", "\\d+", "C:\\\\dir", "\\\\", "x\\%y", "\\n\\r", "\\", "ab\\"]
 # region kind -> (open, close, forbidden substrings)
-REGIONS = {"sq": ("'", "'", ["'", "\\"]), "dq": ('"', '"', ['"', "\\"]), "bq": ("`", "`", ["`"]), "block": ("/*", "*/", ["*/", "*"]),
+REGIONS = {"sq": ("'", "'", ["'"]), "dq": ('"', '"', ['"']), "bq": ("`", "`", ["`"]), "block": ("/*", "*/", ["*/", "*"]),
            "dash": ("-- ", "\n", ["\n", "\r"]), "hash": ("# ", "\n", ["\n", "\r"])}
 # (region kinds allowed, text with {R} for the region)
 TEMPLATES = [(("sq", "dq"), "SELECT {R} FROM t"), (("sq", "dq"), "SELECT a FROM t WHERE b = {R} AND c > 1"), (("sq", "dq"), "SELECT f(a, {R}, 2) FROM t"),
@@ -19,6 +20,8 @@ TEMPLATES = [(("sq", "dq"), "SELECT {R} FROM t"), (("sq", "dq"), "SELECT a FROM 
 
 
 def ok_payload(kind, p):
+    if kind in ("sq", "dq") and (len(p) - len(p.rstrip("\\"))) % 2 == 1:
+        return False          # a trailing backslash would escape the closing quote
     return not any(f in p for f in REGIONS[kind][2])
 
 
